@@ -254,6 +254,22 @@ def f08_blind(ast):
     return rules
 
 
+def nudge_to_thresholds(rng, ast, data, p=0.35):
+    """some samples are moved next to the constants of the formula (exactly on one, or a few 1e-8 beside it): values between
+    two thresholds that differ in a late decimal, strict against non-strict comparison. data: {var: [values]}; in place."""
+    cs = sorted(set(x[1] for x in sg.walk(ast) if x[0] == 'const'))
+    if not cs:
+        return 0
+    k = 0
+    for v in sorted(data):
+        col = data[v]
+        for i in range(len(col)):
+            if isinstance(col[i], (int, float)) and abs(col[i]) < 1e6 and rng.random() < p:
+                col[i] = round(cs[rng.randrange(len(cs))] + rng.choice([0.0, 5e-8, -5e-8, 1.5e-7, -1.5e-7, 5e-11]), 12)
+                k += 1
+    return k
+
+
 def consts_to_refs(ast, consts):
     """replace literal leaves by references to declared constants; consts = [[name, value, how], ...]"""
     inv = dict((v, k) for k, v, _ in consts)
